@@ -32,23 +32,32 @@ def run_main(task):
     def run_path(I):
         tty = I.fresh_bool('stdin_is_terminal')
         envset = I.fresh_bool('terminal_mode_env')
-        globs_empty = I.fresh_bool('globs_empty')
+        globs_empty = I.branch(I.fresh_bool('globs_empty'))
         is_list = I.branch(I.fresh_bool('list'))
         both_flags = I.branch(I.fresh_bool('both_flags'))
+        # which validators -e / -d name (when not both): none, `affects`, `keep-sorted` / none, `line-count`
+        e_pick = 0 if both_flags else I.concretize(I.fresh_int('enable_pick', 0, 2), 'enable')
+        d_pick = 0 if (both_flags or e_pick) else I.concretize(I.fresh_int('disable_pick', 0, 1), 'disable')
+        e_list = [[], [b'affects'], [b'keep-sorted']][e_pick]
+        d_list = [[], [b'line-count']][d_pick]
+        if both_flags:
+            e_list, d_list = [b'keep-sorted'], [b'line-count']
         diff_ok = I.fresh_bool('diff_ok')
         has_viol = I.fresh_bool('has_violations')
         sym = dict(tty=tty, envset=envset, globs_empty=globs_empty, is_list=is_list, both_flags=both_flags,
-                   diff_ok=diff_ok, has_viol=has_viol)
+                   diff_ok=diff_ok, has_viol=has_viol, enabled=[x.decode() for x in e_list], disabled=[x.decode() for x in d_list])
         calls = []
         holder.update(sym=sym, calls=calls)
         cmd = NONE
+        # the positional globs live at the top level, or inside the `list` subcommand when it is used
+        given = [] if globs_empty else [new_string(I, b'a.py')]
         if is_list:
             vi = prog.variant_index('SubCommand', 'List')
-            cmd = Some(Enum('SubCommand', vi, 'List', (VecVal(()),)))
+            cmd = Some(Enum('SubCommand', vi, 'List', (VecVal(given),)))
         args = mk_struct(prog, 'Args', extensions=VecVal(()),
-                         disabled_validators=VecVal([new_string(I, b'line-count')] if both_flags else []),
-                         enabled_validators=VecVal([new_string(I, b'keep-sorted')] if both_flags else []),
-                         ignore=VecVal(()), globs=VecVal(()), command=cmd)
+                         disabled_validators=VecVal([new_string(I, x) for x in d_list]),
+                         enabled_validators=VecVal([new_string(I, x) for x in e_list]),
+                         ignore=VecVal(()), globs=VecVal([] if is_list else given), command=cmd)
         st = I.stubs
         st['Parser::parse'] = lambda I2, a, ci, dt: args
         st['language_parsers'] = lambda I2, a, ci, dt: Ok(table)
@@ -103,7 +112,13 @@ def run_main(task):
         st['ValidationContext::to_serializable_report'] = lambda I2, a, ci, dt: (calls.append(('report',)), MapVal((), 'HashMap'))[1]
         st['stdout'] = lambda I2, a, ci, dt: Opaque('stdout')
         st['to_writer_pretty'] = lambda I2, a, ci, dt: (calls.append(('print',)), Ok(UNIT))[1]
-        st['detect_validators'] = lambda I2, a, ci, dt: (calls.append(('detect',)), Ok(Tuple(VecVal(()), VecVal(()))))[1]
+        def detect_stub(I2, a, ci, dt):
+            def names(h):
+                h = I2.deref_value(h)
+                return sorted(bytes(as_b(I2, e.f[0])).decode() for e in h.entries)
+            calls.append(('detect', names(a[2]), names(a[3])))
+            return Ok(Tuple(VecVal(()), VecVal(())))
+        st['detect_validators'] = detect_stub
 
         def run_stub(I2, a, ci, dt):
             calls.append(('run',))
@@ -123,7 +138,7 @@ def run_main(task):
             roles.add(role)
             m = I.solver.model()
             out['violations'].append(dict(role=role, summary=summary, main=True,
-                                          inputs={k: mval(m, v) for k, v in holder['sym'].items()},
+                                          inputs={k: (v if isinstance(v, (list, str)) else mval(m, v)) for k, v in holder['sym'].items()},
                                           calls=[list(map(str, c)) for c in holder['calls']]))
 
     for I, pk, val in explore(prog, models.M, run_path, stats=stats, max_paths=5000):
@@ -153,11 +168,12 @@ def run_main(task):
             out['cover']['main:diff-error'] = 1
             continue
         _n, nfiles, scan, pats = pbs[0]
-        want_scan = z3.Or(z3.Not(s['globs_empty']), is_terminal)
+        ge = z3.BoolVal(bool(s['globs_empty']))
+        want_scan = z3.Or(z3.Not(ge), is_terminal)
         viol(I, (scan != want_scan) if is_sym(scan) else (z3.Not(want_scan) if scan else want_scan),
              'should-scan-files-wrong', 'should_scan_files=%s' % scan)
         default_glob = (pats == (b'**',))
-        want_default = z3.And(s['globs_empty'], is_terminal)
+        want_default = z3.And(ge, is_terminal)
         viol(I, z3.Not(want_default) if default_glob else want_default, 'default-glob-wrong',
              'glob set handed to the path checker: %r' % (pats,))
         if nfiles:
@@ -169,6 +185,11 @@ def run_main(task):
         else:
             if names_called.count('detect') != 1 or names_called.count('run') != 1:
                 viol(I, z3.BoolVal(True), 'validation-wiring-wrong', 'calls %s' % names_called)
+            else:
+                det = [c for c in calls if c[0] == 'detect'][0]
+                if det[1] != sorted(s['disabled']) or det[2] != sorted(s['enabled']):
+                    viol(I, z3.BoolVal(True), 'validator-selection-rewritten:-e %s -d %s' % (','.join(s['enabled']) or '-', ','.join(s['disabled']) or '-'),
+                         '-d %s -e %s on the command line, detect_validators got disabled=%s enabled=%s' % (s['disabled'], s['enabled'], det[1], det[2]))
             pv = 'process_violations' in names_called
             viol(I, z3.Not(s['has_viol']) if pv else s['has_viol'], 'report-wiring-wrong',
                  'process_violations %s' % ('called' if pv else 'not called'))
@@ -181,26 +202,37 @@ def run_main(task):
 def confirm_main(binary, prop, v, idx):
     """Replay of a wiring violation: the default-scan behaviour is observable through BLOCKWATCH_TERMINAL_MODE."""
     v['confirmed'] = False
-    files = {'a.py': b'# <block name="x" keep-sorted>\nb\na\n# </block>\n'}
+    files = {'a.py': b'# <block name="x" keep-sorted>\nb\na\n# </block>\n',
+             'other/b.py': b'# <block name="y" keep-sorted>\na\nb\n# </block>\n'}
     inp = v.get('inputs', {})
     env = {'BLOCKWATCH_TERMINAL_MODE': '1'} if (inp.get('envset') or inp.get('tty')) else None
     globs = [] if inp.get('globs_empty', True) else ['a.py']
     extra = ['list'] if inp.get('is_list') else []
     if inp.get('both_flags'):
         extra += ['-d', 'line-count', '-e', 'keep-sorted']
+    else:
+        for x in inp.get('enabled') or []:
+            extra += ['-e', x]
+        for x in inp.get('disabled') or []:
+            extra += ['-d', x]
     r = run_scan(binary, files, globs, env_extra=env, extra_args=extra)
     terminal = bool(env)
     scanned = terminal or bool(globs)
     if inp.get('both_flags'):
         ok = r['code'] != 0 and r['diags'] is None
     elif inp.get('is_list'):
-        ok = r['code'] == 0 and (('"x"' in r['stdout']) == scanned)
+        # the file outside the glob is listed exactly when everything is scanned by default
+        ok = r['code'] == 0 and (('"x"' in r['stdout']) == scanned) and (('"y"' in r['stdout']) == (terminal and not globs))
     else:
-        ok = (r['code'] == (1 if scanned else 0))
+        # a.py holds one keep-sorted violation: it is reported unless -e names another validator
+        sel = inp.get('enabled') or []
+        reported = scanned and (not sel or 'keep-sorted' in sel)
+        ok = (r['code'] == (1 if reported else 0))
     v['observed'] = dict(code=r['code'], stdout=r['stdout'][-150:], stderr=r['stderr'][-150:])
     if not ok:
         v['confirmed'] = True
-        v['replay'] = save_replay(prop, 'main-%s-%d' % (v['role'], idx), files,
+        import re as _re
+        v['replay'] = save_replay(prop, 'main-%s-%d' % (_re.sub(r'[^A-Za-z0-9_-]+', '_', v['role']), idx), files,
                                   ' '.join(extra + globs), 'env %s; %s' % (env, v['summary']), v)
     return v
 
@@ -208,7 +240,7 @@ def confirm_main(binary, prop, v, idx):
 ROLES = {
     'C02': ['should-scan-files-wrong', 'diff-read-in-terminal-mode', 'diff-not-read', 'diff-used-in-terminal-mode', 'blocks-not-parsed', 'main-panic'],
     'C15': ['default-glob-wrong', 'should-scan-files-wrong'],
-    'C14': ['flags-not-rejected-up-front', 'validation-wiring-wrong'],
+    'C14': ['flags-not-rejected-up-front', 'validation-wiring-wrong', 'validator-selection-rewritten'],
     'C11': ['list-wiring-wrong', 'report-wiring-wrong', 'validation-wiring-wrong'],
 }
 
@@ -219,7 +251,7 @@ def add_to(agg, prop, binary):
         r2 = dict(r)
         keep = []
         for i, v in enumerate(r.get('violations', [])):
-            if v['role'] in ROLES[prop]:
+            if v['role'].split(':')[0] in ROLES[prop]:
                 confirm_main(binary, prop, v, i)
                 keep.append(v)
         r2['violations'] = keep
